@@ -84,6 +84,13 @@ impl<T: Copy> Block for RationalResampler<T> {
                 self.counter -= self.deci;
                 opos += 1;
                 if opos == o.len() {
+                    if self.counter > 0 {
+                        // Output filled up in the middle of this input sample.
+                        // Leave the sample in the input stream, so that its
+                        // remaining copies are not taken from the next sample.
+                        taken -= 1;
+                        self.counter -= self.interp;
+                    }
                     out_full = true;
                     break 'outer;
                 }
